@@ -13,6 +13,8 @@ FORMS = [('#x', True), ('//x', True), ('/*x*/', False), ('/* multi\n line */', F
          ('/* a * b */', False), ('/** doc */', False), ('/*** x ***/', False), ('/* 2*3 / 4 */', False), ('/* star*\n *next */', False)]
 ANN = [('# hello world', True, 'hello world'), ('// slashes', True, 'slashes'), ('/* c style */', False, 'c style'),
        ('/*  multi\n   line  */', False, 'multi\n   line'), ('####   hashes  ', True, 'hashes'), ('////deep', True, 'deep'), ('/*tight*/', False, 'tight'),
+       ('#/etc/app conf', True, '/etc/app conf'), ('//#42 hash', True, '#42 hash'), ('# open /* only', True, 'open /* only'),
+       ('/*\n  boxed\n*/', False, 'boxed'), ('/*\n * star line\n */', False, '* star line'), ('# cr\r', True, 'cr'), ('/*\ttabbed\t*/', False, 'tabbed'),
        ('#', True, None), ('//', True, None), ('/**/', False, None), ('/* */', False, None), ('###', True, None)]
 RULE = ('grammar-derived accepted texts and token-mutated rejected texts x every token boundary (also inside lists, after =, between section name/title and {, '
         'inside call arguments) x %d inserted forms (#x //x /*x*/ multi-line, empty and marker-only comments, blanks, newlines), annotation support on and off: '
